@@ -274,17 +274,14 @@ Qed.
 (* no verifiers, no signatures, or a signature without a verifier of that key id: never verifies *)
 Theorem sign_no_verifiers pany data ext : forall r, sign_consume pany [] data ext <> Ok r.
 Proof.
-  intros r H. unfold sign_consume in H.
-  destruct (unmarshal_wire KSign data) as [w| |]; cbn [bind] in H; try discriminate.
-  destruct (sigs_decode (w_extra w)); cbn [bind] in H; try discriminate.
-  destruct (decoded_view pany w); cbn [bind] in H; discriminate.
+  intros [v sigs] H. destruct (sign_consume_sound _ _ _ _ _ _ H) as [Hn _]. congruence.
 Qed.
 
 Theorem sign_zero_signatures pany vs data ext w : unmarshal_wire KSign data = Ok w ->
   (sigs_decode (w_extra w) = Ok (Some []) \/ sigs_decode (w_extra w) = Ok None) -> forall r, sign_consume pany vs data ext <> Ok r.
 Proof.
-  intros Ew Es r H. unfold sign_consume in H. rewrite Ew in H. cbn [bind] in H.
-  destruct Es as [Es|Es]; rewrite Es in H; cbn [bind] in H; destruct (decoded_view pany w); cbn [bind] in H; try discriminate; destruct vs; discriminate.
+  intros Ew Es [v sigs] H. destruct (sign_consume_sound _ _ _ _ _ _ H) as [_ [Hn [w' [Ew' [Es' _]]]]].
+  rewrite Ew in Ew'. inversion Ew'; subst w'. destruct Es as [Es|Es]; rewrite Es in Es'; inversion Es'; subst; congruence.
 Qed.
 
 Theorem sign_unmatched_signature pany vs data ext v sigs s :
@@ -387,7 +384,8 @@ Theorem signed_structure_binds k prot sprot ext payload c pb sp e pl :
   structure k prot sprot ext payload = Ok (encode (Sig_structure c pb sp e pl)) ->
   c = ctx_of k /\ prot = Some pb /\ aad ext = e /\ payload = Some pl /\ (k = KSign -> sprot = sp) /\ (k <> KSign -> sp = None).
 Proof.
-  intros Hk H1 H2 H3 H4 H5 H6 H7 H8 H. rewrite structure_general in H. inversion H as [E]. clear H.
+  intros Hk H1 H2 H3 H4 H5 H6 H7 H8 H. rewrite structure_general in H.
+  assert (E : encode (structure_item k prot sprot ext payload) = encode (Sig_structure c pb sp e pl)) by congruence. clear H.
   apply encode_inj in E; [|apply structure_item_encodable; assumption|apply sig_structure_encodable; try assumption; destruct sp; assumption].
   unfold structure_item, Sig_structure in E.
   destruct k; try contradiction; destruct prot, sprot, payload, sp; cbn in E; inversion E; subst;
@@ -400,7 +398,8 @@ Theorem enc_structure_binds k prot sprot ext payload c pb e :
   structure k prot sprot ext payload = Ok (encode (Enc_structure c pb e)) ->
   c = ctx_of k /\ prot = Some pb /\ aad ext = e.
 Proof.
-  intros Hk H1 H3 H5 H7 H. rewrite structure_general in H. inversion H as [E]. clear H.
+  intros Hk H1 H3 H5 H7 H. rewrite structure_general in H.
+  assert (E : encode (structure_item k prot sprot ext payload) = encode (Enc_structure c pb e)) by congruence. clear H.
   assert (Ee : encodable (structure_item k prot None ext None) = true) by (apply structure_item_encodable; cbn; auto).
   assert (Same : structure_item k prot sprot ext payload = structure_item k prot None ext None) by (destruct k; try contradiction; reflexivity).
   rewrite Same in E.
